@@ -10,7 +10,8 @@ func c07(tier string) int {
 		"reg:G1:temp", "reg:G2:temp", "reg:G1:G1", "reg:G1:srv", "reg:G2:G1", "reg:G1:temp:alt",
 		"auth:1:kA:1000:temp", "auth:1:kA:1000:G1", "auth:1:kA:1000:G2",
 		"sauth:S1:0:1:temp", "sauth:S1:0:1:G1", "sauth:S1:0:1:G2",
-		"migr:kA:G3:temp:G3", "migr:kA:G3:G1:G3", "migr:kA:G3:G2:G3",
+		"migr:kA:G3:temp:G3", "migr:kA:G3:G1:G3", "migr:kA:G3:G2:G3", "migr:kA:G3:G1:G3:stale", "migr:kA:G3:G1:G3:staleserver",
+		"sauth:S1:0:1:G1:9:stale",
 		"restart",
 	}
 	depth := 8 // the reachable state space closes well before this depth
